@@ -1408,6 +1408,26 @@ impl World {
                         if o2.s_value(false) != exp.s_value(false) {
                             self.res.viol("C14", "new_until-differs", exp.diff(&o2));
                         }
+                        // a replica opened in the past catches up with one refresh: same as a full load
+                        if self.r.chance(50) {
+                            let mut m2 = m2;
+                            let rf = guard(|| m2.refresh());
+                            set_caps(self.reps[i].caps);
+                            let ad2 = self.reps[i].ad.clone();
+                            match (rf, guard(|| Melda::new(ad2))) {
+                                (Outcome::Ok(()), Outcome::Ok(full)) => {
+                                    let (a, b) = (observe(&m2), observe(&full));
+                                    if a.s_value(false) != b.s_value(false) || a.anchors != b.anchors {
+                                        self.res.viol("C02", "refresh-from-the-past-differs-from-full-load", b.diff(&a));
+                                        self.res.viol("C14", "refresh-from-the-past-differs-from-full-load", b.diff(&a));
+                                    }
+                                    self.res.count("c14_refresh_from_past_checked", 1);
+                                }
+                                (Outcome::Panic(p), _) => self.panic_viol("C14", "refresh", &p),
+                                (Outcome::Err(e), _) => self.res.viol("C14", "refresh-from-the-past-failed", e),
+                                _ => {}
+                            }
+                        }
                     }
                     o => self.res.viol("C14", "new_until-failed", o.describe()),
                 }
